@@ -1766,6 +1766,15 @@ fn build_statistics_expr(
             // (column / 2) = 4 => (column_min / 2) <= 4 && 4 <= (column_max / 2)
             build_eq_statistics_expr(expr_builder)?
         }
+        // TRY_CAST yields NULL for non-null inputs that do not fit the target type,
+        // so the null count of the column says nothing about NULLs of the expression.
+        Operator::IsDistinctFrom | Operator::IsNotDistinctFrom
+            if contains_try_cast(&expr_builder.column_expr) =>
+        {
+            return plan_err!(
+                "IS [NOT] DISTINCT FROM on a TRY_CAST expression is not supported for pruning"
+            );
+        }
         Operator::IsDistinctFrom => return build_is_distinct_from(expr_builder),
         Operator::IsNotDistinctFrom => return build_is_not_distinct_from(expr_builder),
         Operator::NotLikeMatch => build_not_like_match(expr_builder)?,
@@ -1815,6 +1824,19 @@ fn build_statistics_expr(
     };
     let statistics_expr = wrap_null_count_check_expr(statistics_expr, expr_builder)?;
     Ok(statistics_expr)
+}
+
+fn contains_try_cast(expr: &Arc<dyn PhysicalExpr>) -> bool {
+    let mut found = false;
+    expr.apply(|e| {
+        if e.downcast_ref::<phys_expr::TryCastExpr>().is_some() {
+            found = true;
+            return Ok(TreeNodeRecursion::Stop);
+        }
+        Ok(TreeNodeRecursion::Continue)
+    })
+    .expect("closure never fails");
+    found
 }
 
 fn binary_expr(
